@@ -22,7 +22,7 @@ ID = "C14"
 LEVEL = "exploration"
 NEEDS_SIMMPI = True
 RULE = ("seeded problems: radial spline degree 1-5 (3 = uniform-cubic space), 2-40 uniform cells, quadrature exactness "
-        "parameter in {p, 2p, 2p+2, 7}, A in {-1, other constants}, smooth random coefficient functions B,C,D,E, "
+        "parameter in {p, 2p, 2p+2, 7}, A in {-1, other constants}, smooth random coefficient functions B,C,D,E (E of overall magnitude 1, 1e-6, 1e-12 or 1e4), "
         "Dirichlet/Neumann choice per mode at either boundary, n_theta even/odd (4-9), 1-3 z positions, random complex "
         "discrete right-hand sides; mode_solve-type layouts on 1-4 simulated ranks.  Every (mode, z) radial profile of the "
         "phi grid compared with the dense reference; identities on the real code (linearity, Dirichlet zeros, mode "
@@ -63,6 +63,8 @@ class _Coef:
         self.k = rs.uniform(-1, 1, (4, 3))
         self.a, self.b = a, b
         self.int_first = bool(seed % 3 == 0)
+        # overall magnitude of the right-hand-side factor E: the solution must scale with it (no absolute thresholds)
+        self.escale = float(10.0 ** [0, 0, 0, -6, -12, 4][seed % 6])
 
     def _f(self, i, r, base):
         t = (r - self.a) / (self.b - self.a)
@@ -81,7 +83,7 @@ class _Coef:
         return -abs(self._f(2, r, 1.0)) - 0.2
 
     def E(self, r):
-        return self._f(3, r, 2.0)
+        return self.escale * self._f(3, r, 2.0)
 
 
 def _space(spl, p, ncells, a, b):
@@ -214,7 +216,7 @@ def _solve_case(case, spl, ps):
         bfun = (gwq * gxq * np.array([co.E(xi) for xi in gxq]) * (1.0 + 0.3 * gxq)) @ Vq
         reff = Vn[:, keep] @ np.linalg.solve(K, bfun[keep])
         gotf = sols[4][:, I, :]
-        tolf = C * rm.EPS * condK * kap_i * (float(np.abs(reff).max()) + 1e-3)
+        tolf = C * rm.EPS * condK * kap_i * (float(np.abs(reff).max()) + 1e-3 * co.escale)
         evn["profiles_compared"] += nz
         cls.add("%s/bc-%s/function-rhs-after-discrete" % (base, bc))
         ef = float(np.abs(gotf - reff[:, None]).max()) if np.all(np.isfinite(gotf)) else np.inf
@@ -226,7 +228,7 @@ def _solve_case(case, spl, ps):
             cvec = np.linalg.solve(K.astype(complex), Mass @ rho_c[:, I, z])
             ref = Vn[:, keep] @ cvec
             got = sols[0][:, I, z]
-            scale = float(np.abs(ref).max()) + float(np.abs(RHO[:, I, z]).max()) * 1e-3
+            scale = float(np.abs(ref).max()) + float(np.abs(RHO[:, I, z]).max()) * 1e-3 * co.escale
             tol = C * rm.EPS * condK * kap_i * scale
             evn["profiles_compared"] += 1
             cls.add("%s/bc-%s/formula" % (base, bc))
